@@ -152,7 +152,7 @@ class RSpec:
         return []
 
     def seeded_sizes(self, tier):
-        return [4] if tier == "quick" else [4, 5]
+        return [4] if tier == "quick" else ([4, 5] if tier == "thorough" else [4, 5, 6])
 
     def seeded_instances(self, tier, seed):
         out = []
@@ -198,9 +198,11 @@ class TSPSpec(RSpec):
     def hand_instances(self, tier):
         out = [("diamond4", dict(locs=DIAMOND, _exact=True)), ("rect4", dict(locs=RECT, _exact=True)), ("generic5", dict(locs=GENERIC[:5]))]
         out.append(("collinear4", dict(locs=[(0.0, 0.5), (0.25, 0.5), (0.5, 0.5), (1.0, 0.5)], _exact=True)))
-        if tier == "thorough":
+        if tier != "quick":
             out.append(("generic6", dict(locs=GENERIC[:6])))
             out.append(("diamond5", dict(locs=[C] + DIAMOND, _exact=True)))
+        if tier == "deep":
+            out.append(("generic7", dict(locs=GENERIC[:7])))
         return out
 
 
@@ -216,7 +218,7 @@ class ATSPSpec(RSpec):
         out = [("asym4", dict(cost_matrix=M4, _exact=True))]
         M3 = [[0, 0.5, 0.25], [0.125, 0, 0.75], [1.0, 0.25, 0]]
         out.append(("asym3", dict(cost_matrix=M3, _exact=True)))
-        if tier == "thorough":
+        if tier != "quick":
             M5 = [[0 if i == j else ((3 * i + 5 * j) % 7 + 1) / 8 for j in range(5)] for i in range(5)]
             out.append(("asym5", dict(cost_matrix=M5, _exact=True)))
         return out
@@ -240,14 +242,17 @@ class CVRPSpec(RSpec):
         for dv in itertools.product(Q4, repeat=3):
             out.append((f"diamond3-{'-'.join(str(int(x * 4)) for x in dv)}", _cvrp_inst(DIAMOND[:3], dv)))
         sel4 = [(0.5, 0.5, 0.5, 0.5), (0.25, 0.75, 0.5, 0.5), (1, 1, 1, 1), (0.25, 0.25, 0.25, 0.25), (0.75, 0.25, 0.75, 0.25), (0.5, 0.25, 0.25, 1.0)]
-        if tier == "thorough":
+        if tier != "quick":
             sel4 = list(itertools.product(Q4, repeat=4))
         for dv in sel4:
             out.append((f"diamond4-{'-'.join(str(int(x * 4)) for x in dv)}", _cvrp_inst(DIAMOND, dv)))
         out.append(("generic4", _cvrp_inst(GENERIC[1:5], (0.5, 0.25, 0.75, 0.5), depot=GENERIC[0])))
-        if tier == "thorough":
+        if tier != "quick":
             out.append(("generic5", _cvrp_inst(GENERIC[1:6], (0.5, 0.25, 0.75, 0.5, 0.25), depot=GENERIC[0])))
             out.append(("generic5b", _cvrp_inst(GENERIC[1:6], (0.25, 0.25, 0.25, 0.25, 1.0), depot=GENERIC[0])))
+        if tier == "deep":
+            out.append(("generic6", _cvrp_inst(GENERIC[1:7], (0.5, 0.25, 0.75, 0.5, 0.25, 0.5), depot=GENERIC[0])))
+            out.append(("generic6b", _cvrp_inst(GENERIC[1:7], (0.25, 0.25, 0.25, 0.25, 0.5, 0.5), depot=GENERIC[0])))
         return out
 
 
@@ -261,7 +266,7 @@ class SDVRPSpec(CVRPSpec):
         out = []
         for dv in itertools.product(Q4, repeat=3):
             out.append((f"diamond3-{'-'.join(str(int(x * 4)) for x in dv)}", _cvrp_inst(DIAMOND[:3], dv)))
-        if tier == "thorough":
+        if tier != "quick":
             for dv in [(0.5, 0.5, 0.5, 0.5), (0.75, 0.75, 0.75, 0.75), (0.25, 0.75, 0.5, 1.0), (0.25, 0.25, 0.25, 0.25)]:
                 out.append((f"diamond4-{'-'.join(str(int(x * 4)) for x in dv)}", _cvrp_inst(DIAMOND, dv)))
         return out
@@ -321,7 +326,7 @@ class CVRPTWSpec(CVRPSpec):
                     tw, du = self._windows(pts, ch, du_)
                     iid = f"diamond3-{''.join(c[0] for c in ch)}-{'-'.join(str(int(x * 4)) for x in dv)}-s{int(du_[0] * 8)}{int(du_[1] * 8)}{int(du_[2] * 8)}"
                     out.append((iid, _cvrp_inst(pts, dv, time_windows=tw, durations=du, exact=True)))
-        if tier == "thorough":
+        if tier != "quick":
             pts = DIAMOND
             for ch in [("wide",) * 4, ("early", "late", "mid", "wide"), ("mid",) * 4, ("late", "late", "early", "early")]:
                 tw, du = self._windows(pts, ch, (0.0, 0.125, 0.0, 0.125))
@@ -350,7 +355,7 @@ class SVRPSpec(RSpec):
                     continue
                 iid = f"diamond3-t{''.join(str(int(t)) for t in techs)}-k{''.join(str(int(s)) for s in sk)}"
                 out.append((iid, dict(depot=C, locs=DIAMOND[:3], techs=[[t] for t in techs], skills=[[s] for s in sk], _exact=True)))
-        if tier == "thorough":
+        if tier != "quick":
             for sk in [(1.0, 2.0, 3.0, 1.0), (3.0, 3.0, 1.0, 1.0), (2.0, 2.0, 2.0, 2.0), (1.0, 1.0, 1.0, 3.0)]:
                 out.append((f"diamond4-k{''.join(str(int(s)) for s in sk)}", dict(depot=C, locs=DIAMOND, techs=[[1.0], [2.0], [3.0]], skills=[[s] for s in sk], _exact=True)))
         return out
@@ -374,7 +379,7 @@ class OPSpec(RSpec):
             for pr in prizes:
                 out.append((f"diamond4-L{L}-p{int(pr[0] * 4)}", dict(depot=C, locs=DIAMOND, prize=list(pr), max_length=L, _exact=True)))
         out.append(("generic4", dict(depot=GENERIC[0], locs=GENERIC[1:5], prize=[0.1, 0.2, 0.3, 0.4], max_length=1.9)))
-        if tier == "thorough":
+        if tier != "quick":
             out.append(("generic5", dict(depot=GENERIC[0], locs=GENERIC[1:6], prize=[0.1, 0.2, 0.3, 0.4, 0.5], max_length=2.1)))
         return out
 
@@ -407,7 +412,7 @@ class PDPSpec(RSpec):
 
     def hand_instances(self, tier):
         out = [("diamond4", dict(depot=C, locs=DIAMOND, _exact=True)), ("generic2", dict(depot=GENERIC[0], locs=GENERIC[1:3]))]
-        if tier == "thorough":
+        if tier != "quick":
             out.append(("generic6", dict(depot=GENERIC[0], locs=GENERIC[1:7])))
         return out
 
@@ -433,7 +438,7 @@ class MTSPSpec(RSpec):
             out.append((f"rect4-m{m}", dict(locs=RECT, num_agents=m, _exact=True)))
             out.append((f"diamond5-m{m}", dict(locs=[C] + DIAMOND, num_agents=m, _exact=True)))
         out.append(("unit4-m2", dict(locs=[(0.0, 0.0), (1.0, 0.0), (1.0, 1.0), (0.0, 1.0)], num_agents=2, _exact=True)))
-        if tier == "thorough":
+        if tier != "quick":
             out.append(("generic6-m3", dict(locs=GENERIC[:6], num_agents=3)))
         return out
 
